@@ -3,7 +3,7 @@
    split_at / next / len of the two producers are the definitions GENERATED from src/utils.rs (Gen/Grid.v). *)
 From Coq Require Import String.
 From Coq Require Import List Arith Bool Lia Reals.
-From SpdVerif Require Import Base.GridOps Gen.Grid Model.Grid Model.Producer Proofs.C15_generic Proofs.C15_inst Model.C15_Float Proofs.C15_float Gen.C15_Reductions Proofs.C15_sites.
+From SpdVerif Require Import Base.GridOps Gen.Grid Model.Grid Model.Producer Proofs.C15_generic Proofs.C15_inst Model.C15_Float Proofs.C15_float Gen.C15_Reductions Proofs.C15_sites Model.C15_Bridge Proofs.C15_bridge.
 Import ListNotations.
 
 (* 1. 2-D grids: every split tree delivers the same points in the same positions — for EVERY carrier, hence bit-exactly *)
@@ -138,6 +138,21 @@ Proof. exact (conj Rplus_monoid cplus_monoid). Qed.
 Theorem C15_bridge_trees_admissible : forall t n, bridge_shaped t n -> admissible 1 t n /\ admissible 0 t n.
 Proof. exact bridge_admissible. Qed.
 
+(* rayon's bridge modelled with an explicit steal oracle (Model/C15_Bridge.v: LengthSplitter / Splitter budget, reset on steal):
+   for EVERY thread count, min_len and steal pattern the tree it builds is admissible, so both producers deliver the sequential
+   sequence (2-D: any carrier, bit-exact; 1-D: over the reals, floats within C15_1d_float_bound_partial) *)
+Theorem C15_bridge_any_steals : forall (min_len threads : nat) (steal : steal_oracle),
+  (forall len, bridge_shaped (bridge min_len threads steal len) len) /\
+  (forall T (O : ops T) x0 x1 nx y0 y1 ny,
+     run (prod2d O x0 x1 nx y0 y1 ny) (bridge min_len threads steal (nx * ny)) (root2d nx ny) = Ok (seq2d O x0 x1 nx y0 y1 ny)) /\
+  (forall (s e : R) n, run (prod1d Rops) (bridge min_len threads steal n) (root1d s e n) = Ok (seq1d Rops s e n)).
+Proof.
+  exact (fun min_len threads steal =>
+    conj (bridge_shaped_any min_len threads steal)
+   (conj (fun T O x0 x1 nx y0 y1 ny => run2d_exact O x0 x1 nx y0 y1 ny _ (proj2 (bridge_admissible_any min_len threads steal (nx * ny))))
+         (fun s e n => run1d_exact_real s e n _ (proj1 (bridge_admissible_any min_len threads steal n))))).
+Qed.
+
 Theorem C15_split_at_zero_1d : forall T (O : ops T) p, p_split (prod1d O) p 0 = Panic.
 Proof. exact (@split1d_zero). Qed.
 
@@ -162,4 +177,5 @@ Print Assumptions C15_simpson_branches.
 Print Assumptions C15_call_sites.
 Print Assumptions C15_reduce_real_monoids.
 Print Assumptions C15_bridge_trees_admissible.
+Print Assumptions C15_bridge_any_steals.
 Print Assumptions C15_split_at_zero_1d.
